@@ -88,9 +88,9 @@ var (
 // preconditions of reflect.Value methods (from the reflect documentation)
 var kindPre = map[string]KindSet{
 	"Int": ksInts, "Uint": ksUints, "Float": ksFloats, "Bool": ks(kBool),
-	"Len":     ks(kArray, kChan, kMap, kSlice, kString, kPointer), // Ptr to array allowed
-	"Index":   ks(kArray, kSlice, kString),
-	"Slice":   ks(kSlice, kString, kArray),
+	"Len":      ks(kArray, kChan, kMap, kSlice, kString, kPointer), // Ptr to array allowed
+	"Index":    ks(kArray, kSlice, kString),
+	"Slice":    ks(kSlice, kString, kArray),
 	"MapIndex": ks(kMap), "MapKeys": ks(kMap), "MapRange": ks(kMap),
 	"FieldByName": ks(kStruct), "NumField": ks(kStruct), "Field": ks(kStruct),
 	"Elem":  ks(kInterface, kPointer),
@@ -950,7 +950,7 @@ func (ps *predSummaries) evalFor(f *ssa.Function, k int) (canTrue, canFalse, ok 
 
 // reviewed sites the engine cannot prove (function|method|receiver key prefix) with one line of reason
 var assumedSafe = map[string]string{
-	"(*Value).Contains|MapIndex": "the map's key type was compared for equality with other.val's type and the type switch restricts other to int/string (non-pointer), so the resolved value equals other.val",
+	"(*Value).Contains|MapIndex":       "the map's key type was compared for equality with other.val's type and the type switch restricts other to int/string (non-pointer), so the resolved value equals other.val",
 	"(*variableResolver).resolve|Call": "argument count, variadic shape, NumOut and parameter validity are checked by the call protocol above (R-C08-CALL); reflect's per-argument assignability is established by the type comparison loop",
 }
 
